@@ -74,7 +74,10 @@ var fxSources = map[string]string{
 
 func init() {
 	for _, t := range []reflect.Type{
-		reflect.TypeFor[ao.Item](), reflect.TypeFor[ao.Color](), reflect.TypeFor[ao.Str](), reflect.TypeFor[ao.Ptr](), reflect.TypeFor[ao.Dict](),
+		reflect.TypeFor[ao.Item](), reflect.TypeFor[ao.Color](), reflect.TypeFor[ao.Str](), reflect.TypeFor[ao.Object](), reflect.TypeFor[ao.Anything](),
+		reflect.TypeFor[bo.Object](), reflect.TypeFor[user.Payload](), reflect.TypeFor[json.Token](),
+		reflect.TypeFor[ao.List[ao.Object]](), reflect.TypeFor[ao.List[bo.Object]](), reflect.TypeFor[ao.Pair[string, ao.Object]](), reflect.TypeFor[bo.Box[json.Token]](),
+		 reflect.TypeFor[ao.Ptr](), reflect.TypeFor[ao.Dict](),
 		reflect.TypeFor[ao.Fn](), reflect.TypeFor[ao.Lit](), reflect.TypeFor[bo.Item](), reflect.TypeFor[bo.Color](), reflect.TypeFor[fxjson.Raw](),
 		reflect.TypeFor[user.User](), reflect.TypeFor[user.ID](), reflect.TypeFor[v2.Thing](), reflect.TypeFor[fxstring.T](),
 		reflect.TypeFor[time.Duration](), reflect.TypeFor[time.Time](), reflect.TypeFor[url.URL](), reflect.TypeFor[json.RawMessage](),
